@@ -1,7 +1,7 @@
 """C07 - the client speaks DBus only after the server's OK and never stalls in handshake."""
 import binascii
 
-from ..engine import Spec, assume, check, reached, HarnessError, notrace
+from ..engine import Spec, assume, check, reached, HarnessError, notrace, decode_choice, encode_choice
 from ..runner import Ob
 from ..fakes import FakeTransport
 
@@ -22,7 +22,7 @@ EXPLANATION = (
     'line outside the protocol, and SOME reaction (a line written or a failure) to every line - the no-stall clause. '
     'run: k server lines from connectionMade through the real dataReceived. full: complete handshakes against a '
     'reference server for every subset of accepted mechanisms and both answers to NEGOTIATE_UNIX_FD.')
-BOUNDS = {'quick': 'step: 3 mechanisms x unix/non-unix x negotiation pending or not x 17 line shapes (all); run: k <= 2 lines from 9 shapes; '
+BOUNDS = {'quick': 'step: 3 mechanisms x unix/non-unix x negotiation pending or not x 17 line shapes (all); run: k <= 3 lines from 9 shapes; '
                    'full: 7 subsets x 2 transports x 2 answers',
           'thorough': 'run: k <= 4'}
 ASSUMPTIONS = ['cookie lookup reads a keyring directory created by the harness under a temporary HOME (full) or is stubbed (step, run)',
@@ -52,7 +52,7 @@ def obligations(tier):
                               'step', {'mi': mi, 'unix': unix, 'pending': pending}, timeout=120, path_timeout=20, twin=True,
                               functions=FUNCS[:9], bounds='server line: symbolic choice among %d shapes; cookie lookup '
                               'outcome symbolic' % len(LINES)))
-    kmax = 2 if tier == 'quick' else 4
+    kmax = 3 if tier == 'quick' else 4
     for k in range(1, kmax + 1):
         for unix in (False, True):
             for split in (0, 1):
@@ -193,11 +193,18 @@ def _build_run(p):
     from txdbus import authentication, error, protocol
     k, unix, split = p['k'], p['unix'], p['split']
 
-    def h(*sels):
-        for s in sels:
-            assume(0 <= s < len(RUN_LINES))
-        if p.get('first') is not None:
-            assume(sels[0] == p['first'])
+    first = p.get('first')
+    nfree = k if first is None else k - 1
+
+    def h(code):
+        sels = decode_choice(code, [len(RUN_LINES)] * nfree)
+        if first is not None:
+            sels = [first] + sels
+        with notrace():
+            run(sels)
+        reached()
+
+    def run(sels):
         saved_gp = authentication.getpass
         authentication.getpass = type('G', (), {'getuser': staticmethod(lambda: 'user')})
         try:
@@ -251,10 +258,10 @@ def _build_run(p):
             check(pr.authed <= 1, 'authenticated more than once')
         finally:
             authentication.getpass = saved_gp
-        reached()
     h.__name__ = 'run'
-    wit = [tuple([2] * k), tuple([0] + [6] * (k - 1)), tuple([3] * k)]
-    return Spec(h, [('l%d' % i, int) for i in range(k)], witnesses=wit)
+    wit = [[2] * k, [0] + [6] * (k - 1), [3] * k, [2, 0, 6, 3][:k]]
+    wit = [(encode_choice((w[1:] if first is not None else w)[:nfree], [len(RUN_LINES)] * nfree),) for w in wit]
+    return Spec(h, [('code', int)], witnesses=wit)
 
 
 def _ref_server(accept, agree, cookie, guid=b'0123456789abcdef0123456789abcdef'):
